@@ -455,6 +455,7 @@ type FuncContract struct {
 	Rely      []Clause // two-state relation every interference step of other goroutines satisfies
 	Shared    []string // ghost fields other goroutines may change (havocked at yield points under Rely)
 	Uses      []string // lemmas assumed in this function's VC (each discharged on its own)
+	Shapes    []string // `fields <Type> f1 f2 …`: the struct type has exactly these fields, in this order
 	DeadExits []string // `deadexit <source text of a return>`: excluded by the preconditions on purpose
 	Keeps     []Clause // locations abstracted calls are assumed not to write
 	CbInv     []Clause // `cbinvariant [label] expr`: invariant of the state over the calls a library makes to a callback (pragma callback)
@@ -519,7 +520,7 @@ var keywords = map[string]bool{
 	"func": true, "stub": true, "property": true, "returns": true, "requires": true, "ensures": true,
 	"modifies": true, "inline": true, "trusted": true, "ghost": true, "loop": true, "invariant": true,
 	"decreases": true, "at": true, "lemma": true, "spec": true, "assume": true, "pragma": true, "axiom": true,
-	"before": true, "ghostfield": true, "uses": true, "deadexit": true, "keeps": true, "forbid": true, "cbinvariant": true, "rely": true, "shared": true, "guarded": true, "atomic": true,
+	"before": true, "ghostfield": true, "uses": true, "fields": true, "deadexit": true, "keeps": true, "forbid": true, "cbinvariant": true, "rely": true, "shared": true, "guarded": true, "atomic": true,
 }
 
 func firstWord(s string) (string, string) {
@@ -831,6 +832,8 @@ func (sp *Specs) ParseSpecFile(path string) error {
 					return err
 				}
 				cur.CbInv = append(cur.CbInv, c)
+			case "fields":
+				cur.Shapes = append(cur.Shapes, strings.TrimSpace(rest))
 			case "deadexit":
 				cur.DeadExits = append(cur.DeadExits, strings.TrimSpace(rest))
 				sp.Scan = append(sp.Scan, fmt.Sprintf("return declared unreachable under the contract (no reachability cover): %q in %s (%s:%d)", strings.TrimSpace(rest), cur.Key, shortPath(path), l.no))
